@@ -14,11 +14,11 @@ class C05(WrapHarness):
         q = tier == 'quick'
         out = []
         for g in self.option_grid(tier):
-            if g['split'] == 'C1' and q and g['feat'] == 'nd':
+            if q and ((g['split'] == 'C1' and g['feat'] == 'nd') or (g['algo'] == 'O' and g['split'] != 'H')):
                 continue
             c = dict(g, mode='paths')
             if g['sep'] == 'A':
-                c.update(gen='symall', n=2 if q else 3)
+                c.update(gen='sym1' if q else 'symall', n=3)
             else:
                 c.update(gen='alpha', alphabet=[' ', 'a', '-', '你', '\x1b[m', '́'], n=3 if q else 4)
             out.append(c)
@@ -30,9 +30,10 @@ class C05(WrapHarness):
                 continue
             out.append(c2)
         base = {'feat': 'full', 'algo': 'O', 'sep': 'A', 'split': 'H', 'bw': True}
-        out.append(dict(base, mode='paths', gen='sym1', n=4 if q else 5))
+        out.append(dict(base, mode='paths', gen='sym1', n=3 if q else 5))
         out.append(dict(base, mode='paths', gen='symall', n=3, algo='F'))
-        out.append(dict(base, mode='fits', gen='sym1', n=3 if q else 4, ind='both', imax=1))
+        out.append(dict(base, mode='fits', gen='sym1', n=2 if q else 4, ind='both', imax=1))
+        out.append(dict(base, mode='fits', gen='sym1', n=3 if q else 4, ind='both', imax=1, algo='F'))
         out.append(dict(base, mode='fits', gen='symall', n=2 if q else 3, ind='si', imax=1, icl=(1, 3), algo='F'))
         out.append(dict(base, mode='fill', gen='sym1', n=3 if q else 4))
         out.append(dict(base, mode='fill', gen='symall', n=2 if q else 3, algo='F', ind='si', imax=1))
